@@ -1,8 +1,8 @@
 (* C03/Corr.v — correspondence on the term-algebra instance: keys are small numbers (which key pair
    signed), certificates are Gd k (the certificate of key k), Jk n (published octets that are no
    certificate) or Bl n (a KeyDescriptor that carries no certificate); a case is a whole life of one receiver: the metadata it starts with, the operations
-   (verifications, reloads) in order and the output observed on the real code for every verification
-   (accept/reject + which certificates were handed to the verifier). *)
+   (verifications, reloads) in order and the output observed on the real code for every message
+   (accept/reject + per signed element of the message which certificates were handed to the verifier). *)
 From Coq Require Import String List Bool Arith.
 From Verif Require Import Base.Str Base.Run C03.Model C03.Spec C03.Proofs.
 Import ListNotations.
@@ -10,7 +10,8 @@ Import ListNotations.
 Definition iinput := input icert imsg isig.
 Definition iout := (bool * list icert)%type.
 Definition iop := op icert imsg isig.
-Definition case := (metadata icert * bool * list iop * list iout)%type.
+Definition imout := mout icert.
+Definition case := (metadata icert * bool * list iop * list imout)%type.
 
 Definition icert_eqb (a b : icert) : bool :=
   match a, b with
@@ -58,6 +59,38 @@ Definition spec_b (x : iinput) (out : iout) : bool :=
   && (if fst out then genuine_b x && trusted_b x (Gd (fst (s x))) else true)
   && (if genuine_b x && claimed_published_b x (Gd (fst (s x))) then fst out else true).
 
+(* ---- the message level: per signed element the handed certificates, every signature of an accepted message,
+   completeness when all elements name one issuer that publishes every signing key ---- *)
+Fixpoint handed_ok (xs : list iinput) (hs : list (list icert)) : bool :=
+  match xs, hs with
+  | [], [] => true
+  | x :: r, h :: hr => forallb (trusted_b x) h && handed_ok r hr
+  | _, _ => false
+  end.
+
+Definition part_sound_b (x : iinput) : bool := genuine_b x && trusted_b x (Gd (fst (s x))).
+
+Definition part_pub_b (e : string) (x : iinput) : bool :=
+  genuine_b x && issuer_is e x && published_b (md x) e (Gd (fst (s x))).
+
+Definition all_pub_b (xs : list iinput) : bool :=
+  match xs with
+  | [] => true
+  | x :: _ => match claimed x with Some e => forallb (part_pub_b e) xs | None => false end
+  end.
+
+Definition msg_spec_b (xs : list iinput) (out : imout) : bool :=
+  handed_ok xs (snd out)
+  && (if fst out then forallb part_sound_b xs else true)
+  && (if all_pub_b xs then fst out else true).
+
+(* a per-signature test lifted to messages that carry exactly one signature *)
+Definition lift1 (pb : iinput -> iout -> bool) (xs : list iinput) (out : imout) : bool :=
+  match xs, snd out with
+  | [x], [h] => pb x (fst out, h)
+  | _, _ => false
+  end.
+
 (* ---- the classes of the two repaired findings: a failure inside them is a regression of the repair (the
    findings are "fixed": a fixed entry suppresses nothing, the failure is reported as a VIOLATION) ---- *)
 
@@ -77,33 +110,40 @@ Definition in_f1 (x : iinput) (out : iout) : bool :=
   detached x && negb (fst out)
   && hits_unreadable iverify ireadable (signing_certs iblank (md x) (claimed x)) (m x) (s x).
 
-(* walk the life of the receiver with a per-verification test *)
-Fixpoint seq_b (pb : iinput -> iout -> bool) (cur : metadata icert) (only : bool) (ops : list iop) (outs : list iout) : bool :=
+(* walk the life of the receiver with a per-message test *)
+Fixpoint seq_b (pb : list iinput -> imout -> bool) (cur : metadata icert) (only : bool) (ops : list iop) (outs : list imout) : bool :=
   match ops with
   | [] => match outs with [] => true | _ => false end
   | Reload m' :: r => seq_b pb m' only r outs
   | ReloadFailed :: r => seq_b pb cur only r outs
-  | Check q :: r => match outs with
-                    | o :: outs' => pb (at_md cur only q) o && seq_b pb cur only r outs'
-                    | [] => false
-                    end
+  | Check qs :: r => match outs with
+                     | o :: outs' => pb (map (at_md cur only) qs) o && seq_b pb cur only r outs'
+                     | [] => false
+                     end
   end.
 
-(* ck claimed embedded detached signer tampered: the signature was made by `signer` over message 7;
-   `tampered` = the received octets differ from the signed ones *)
-Definition ck (claimedx : option string) (embeddedx : list icert) (detachedx : bool) (signer : nat) (tampered : bool) : iop :=
-  Check (Build_query claimedx embeddedx detachedx (if tampered then 8 else 7) (isign signer 7)).
+(* pt insist claimed embedded detached signer tampered: one signed element; the signature was made by `signer`
+   over message 7; `tampered` = the received octets differ from the signed ones; `insist` = the receiver's
+   configuration demands a signature on this element *)
+Definition pt (insist : bool) (claimedx : option string) (embeddedx : list icert) (detachedx : bool) (signer : nat)
+  (tampered : bool) : query icert imsg isig :=
+  Build_query claimedx embeddedx detachedx (if tampered then 8 else 7) (isign signer 7) insist.
 
-Definition mkseq (mdx : metadata icert) (only_mdx : bool) (ops : list iop) (outs : list iout) : case :=
+(* a message with one signature / with several (Response, then Assertion) *)
+Definition ck (claimedx : option string) (embeddedx : list icert) (detachedx : bool) (signer : nat) (tampered : bool) : iop :=
+  Check [pt true claimedx embeddedx detachedx signer tampered].
+Definition ckm (qs : list (query icert imsg isig)) : iop := Check qs.
+
+Definition mkseq (mdx : metadata icert) (only_mdx : bool) (ops : list iop) (outs : list imout) : case :=
   (mdx, only_mdx, ops, outs).
 
 (* one verification by a fresh receiver *)
 Definition mk (mdx : metadata icert) (only_mdx : bool) (claimedx : option string) (embeddedx : list icert)
   (detachedx : bool) (signer : nat) (tampered : bool) (obs : iout) : case :=
-  mkseq mdx only_mdx [ck claimedx embeddedx detachedx signer tampered] [obs].
+  mkseq mdx only_mdx [ck claimedx embeddedx detachedx signer tampered] [(fst obs, [snd obs])].
 
-Definition out_eqb (a b : iout) : bool :=
-  Bool.eqb (fst a) (fst b) && list_eqb icert_eqb (snd a) (snd b).
+Definition out_eqb (a b : imout) : bool :=
+  Bool.eqb (fst a) (fst b) && list_eqb (list_eqb icert_eqb) (snd a) (snd b).
 
 Definition c_md (c : case) := fst (fst (fst c)).
 Definition c_only (c : case) := snd (fst (fst c)).
@@ -112,12 +152,13 @@ Definition c_outs (c : case) := snd c.
 
 Definition agrees (c : case) : bool :=
   list_eqb out_eqb (run_ops iverify ireadable iblank (c_md c) (c_only c) (c_ops c)) (c_outs c).
-Definition holds (c : case) : bool := seq_b spec_b (c_md c) (c_only c) (c_ops c) (c_outs c).
-(* class 1 only if EVERY verification that fails the spec lies in finding class 1; class 2 only if every
-   one lies in class 1 or 2; otherwise no class: a plain violation *)
+Definition holds (c : case) : bool := seq_b msg_spec_b (c_md c) (c_only c) (c_ops c) (c_outs c).
+(* class 1 only if EVERY message that fails the spec lies in finding class 1; class 2 only if every
+   one lies in class 1 or 2; otherwise no class: a plain violation (the classes are per-signature: only
+   messages with one signature can be in them) *)
 Definition cls (c : case) : nat :=
-  if seq_b (fun x o => spec_b x o || in_f1 x o) (c_md c) (c_only c) (c_ops c) (c_outs c) then 1
-  else if seq_b (fun x o => spec_b x o || in_f1 x o || in_f2 x o) (c_md c) (c_only c) (c_ops c) (c_outs c) then 2
+  if seq_b (fun x o => msg_spec_b x o || lift1 in_f1 x o) (c_md c) (c_only c) (c_ops c) (c_outs c) then 1
+  else if seq_b (fun x o => msg_spec_b x o || lift1 in_f1 x o || lift1 in_f2 x o) (c_md c) (c_only c) (c_ops c) (c_outs c) then 2
   else 0.
 Definition run := run_cases agrees holds cls.
 Definition explain (c : case) :=
@@ -198,8 +239,79 @@ Proof.
 Qed.
 
 
+Lemma handed_ok_iff xs hs :
+  handed_ok xs hs = true <-> Forall2 (fun x h => forall c, In c h -> trusted_for iblank x c) xs hs.
+Proof.
+  revert hs. induction xs as [|x r IH]; intros [|h hr]; cbn [handed_ok].
+  - split; [constructor|reflexivity].
+  - split; [discriminate|intros H; inversion H].
+  - split; [discriminate|intros H; inversion H].
+  - rewrite andb_true_iff, forallb_forall, IH. split.
+    + intros [Hh Hr]. constructor; [|exact Hr]. intros c Hc. apply trusted_b_iff, Hh, Hc.
+    + intros H. inversion H as [|x0 h0 l l' Hh Hr]; subst. split; [|exact Hr].
+      intros c Hc. apply trusted_b_iff, Hh, Hc.
+Qed.
+
+Lemma part_sound_b_iff x :
+  part_sound_b x = true <->
+  (exists k, made_by isign x k) /\ (forall k, made_by isign x k -> trusted_for iblank x (icert_of k)).
+Proof.
+  unfold part_sound_b. rewrite andb_true_iff. split.
+  - intros [Hg Ht]. split.
+    + exists (fst (s x)). apply made_by_iff. auto.
+    + intros k Hk. apply made_by_iff in Hk as [-> _]. apply trusted_b_iff. exact Ht.
+  - intros [[k Hk] H]. pose proof (H k Hk) as Ht. apply made_by_iff in Hk as [-> Hg]. split; [exact Hg|].
+    apply trusted_b_iff. exact Ht.
+Qed.
+
+Lemma part_pub_b_iff e x :
+  part_pub_b e x = true <->
+  exists k, made_by isign x k /\ claimed x = Some e /\ published_for_signing iblank (md x) e (icert_of k).
+Proof.
+  unfold part_pub_b, issuer_is. rewrite !andb_true_iff. split.
+  - intros [[Hg He] Hp]. exists (fst (s x)). split; [apply made_by_iff; auto|]. split.
+    + destruct (claimed x) as [e'|]; [|discriminate]. apply String.eqb_eq in He. subst. reflexivity.
+    + apply published_b_iff. exact Hp.
+  - intros (k & Hk & He & Hp). apply made_by_iff in Hk as [-> Hg]. rewrite He, String.eqb_refl.
+    apply published_b_iff in Hp. auto.
+Qed.
+
+Lemma all_pub_b_iff xs :
+  all_pub_b xs = true <->
+  exists e, forall x, In x xs ->
+    exists k, made_by isign x k /\ claimed x = Some e /\ published_for_signing iblank (md x) e (icert_of k).
+Proof.
+  destruct xs as [|x r]; cbn [all_pub_b].
+  - split; [intros _; exists ""%string; intros x []|reflexivity].
+  - split.
+    + destruct (claimed x) as [e|]; [|discriminate]. intros H. exists e. intros y Hy.
+      apply part_pub_b_iff. exact (proj1 (forallb_forall _ _) H y Hy).
+    + intros [e H]. destruct (H x (or_introl eq_refl)) as (_ & _ & He & _). rewrite He.
+      apply forallb_forall. intros y Hy. apply part_pub_b_iff. exact (H y Hy).
+Qed.
+
+Lemma msg_spec_b_iff xs out : msg_spec_b xs out = true <-> msg_spec icert_of isign iblank xs out.
+Proof.
+  destruct out as [o hs]. unfold msg_spec_b, msg_spec, msg_sound, msg_complete. cbn [fst snd].
+  rewrite !andb_true_iff, handed_ok_iff. split.
+  - intros [[H1 H2] H3]. split; [split|].
+    + exact H1.
+    + intros ->. intros x Hx. apply part_sound_b_iff. exact (proj1 (forallb_forall _ _) H2 x Hx).
+    + intros He. apply all_pub_b_iff in He. rewrite He in H3. exact H3.
+  - intros [[H1 H2] H3]. split; [split|].
+    + exact H1.
+    + destruct o; [|reflexivity]. apply forallb_forall. intros x Hx. apply part_sound_b_iff. exact (H2 eq_refl x Hx).
+    + destruct (all_pub_b xs) eqn:E; [|reflexivity]. apply H3, all_pub_b_iff, E.
+Qed.
+
+(* on a message with one signature the message test is the per-signature test *)
+Lemma msg_spec_b_single x b h : msg_spec_b [x] (b, [h]) = spec_b x (b, h).
+Proof.
+  apply Bool.eq_true_iff_eq. rewrite msg_spec_b_iff, spec_b_iff. apply msg_spec_single.
+Qed.
+
 (* ---- the walk is the stated sequence requirement ---- *)
-Lemma seq_b_iff (pb : iinput -> iout -> bool) (P : iinput -> iout -> Prop) :
+Lemma seq_b_iff (pb : list iinput -> imout -> bool) (P : list iinput -> imout -> Prop) :
   (forall x o, pb x o = true <-> P x o) ->
   forall ops cur only outs, seq_b pb cur only ops outs = true <-> seq_spec P cur only ops outs.
 Proof.
@@ -231,8 +343,8 @@ Proof.
            ++ intros pre q post E. subst r. apply (H (Check q0 :: pre) q post eq_refl).
 Qed.
 
-Lemma holds_iff c : holds c = true <-> seq_spec (spec icert_of isign iblank) (c_md c) (c_only c) (c_ops c) (c_outs c).
-Proof. unfold holds. apply seq_b_iff. exact spec_b_iff. Qed.
+Lemma holds_iff c : holds c = true <-> seq_spec (msg_spec icert_of isign iblank) (c_md c) (c_only c) (c_ops c) (c_outs c).
+Proof. unfold holds. apply seq_b_iff. exact msg_spec_b_iff. Qed.
 
 (* ---- the code before the repairs (accept_v0) breaks the specification, inside the two classes ---- *)
 Definition f1_witness : iinput :=
